@@ -4,7 +4,7 @@ import Secp.Model.PrivKey
 import Secp.Model.PubKey
 import Secp.Gen.FieldIR
 import Secp.Gen.ScalarIR
-import Secp.Gen.Formulas
+import Secp.Gen.FormulasC
 import Secp.Model.ScalarMult
 import Secp.Model.Ecdsa
 /-
@@ -136,7 +136,12 @@ def opSchnorrPubParse (args : List String) : String :=
     | none => "bad-hex"
   | _ => "bad-args"
 
-def entryByName (n : String) : Option Secp.FOp.Entry := Secp.Gen.Formulas.allEntries.find? (·.name == n)
+def entryByName (n : String) : Option Secp.FOp.Entry := Secp.Gen.FormulasC.allEntries.find? (·.name == n)
+
+/-- harness names of the aliased public entries -/
+def cName (n : String) : String :=
+  if n == "AddNonConst_r1" then "AddNonConst_a010" else if n == "AddNonConst_r2" then "AddNonConst_a011"
+  else if n == "DoubleNonConst_r1" then "DoubleNonConst_a00" else n
 
 def hexNat (s : String) : Option Nat := (ofHex s).map beNat
 
@@ -147,11 +152,11 @@ def triple (r : List Nat) (i : Nat) : String :=
 def opJac (args : List String) : String :=
   match args with
   | name :: rest =>
-    match entryByName name, rest.mapM hexNat with
+    match entryByName (cName name), rest.mapM hexNat with
     | some e, some ps =>
       -- aliased entries take only the non-aliased parameters
       let params := ps ++ List.replicate (e.nparam - ps.length) 0
-      match Secp.FOp.runEntry e params [] with
+      match runNamed (cName name) params [] with
       | none => "no-path\t="
       | some (r, _) =>
         let out :=
@@ -167,7 +172,7 @@ def opJac (args : List String) : String :=
 def opIsOnCurve (args : List String) : String :=
   match args.mapM hexNat with
   | some [x, y] =>
-    match Secp.FOp.runEntry Secp.Gen.Formulas.isOnCurve [x, y] [] with
+    match runNamed "isOnCurve" [x, y] [] with
     | some (_, some b) => toString b ++ "\t" ++ toString (onCurveXY x y)
     | _ => "no-path"
   | _ => "bad-args"
@@ -177,7 +182,7 @@ def opDecompressY (args : List String) : String :=
   | [xs, odd] =>
     match hexNat xs with
     | some x =>
-      match Secp.FOp.runEntry Secp.Gen.Formulas.DecompressY [x, 0] [odd == "1"] with
+      match runNamed "DecompressY" [x, 0] [odd == "1"] with
       | some (r, some true) => "true " ++ natHex32 (r.getD 1 0 % P) ++ "\t" ++
           (match Secp.Model.decompressY x (odd == "1") with | some y => "true " ++ natHex32 y | none => "false")
       | some (_, some false) => "false\t" ++
